@@ -184,12 +184,40 @@ fn run_case_on<G: RandomAccessGraph + Sync>(vg: &G, n: usize, kind: Kind, gran: 
             let mut logs = Vec::new();
             for spec in visits {
                 if spec.reset { visit.reset(); }
+                // One visit in three (of those not preceded by a reset) is preceded by an
+                // ABANDONED visit from the same roots, whose callback breaks after a few events:
+                // the nodes it reported stay marked as visited (they are listed for the model),
+                // and whatever it left in the queue must not leak into the next visit.
+                let mut abandoned: Option<Vec<usize>> = None;
+                if !spec.reset && spec.roots.len() % 3 == 1 {
+                    let stop = 1 + (spec.roots.len() + spec.roots.iter().sum::<usize>()) % 5;
+                    let mut seen: Vec<usize> = Vec::new();
+                    let mut cnt = 0usize;
+                    let _r: ControlFlow<(), ()> = visit.visit_filtered(
+                        spec.roots.clone(),
+                        |e| {
+                            if let EventPred::Visit { node, .. } = e { seen.push(node); }
+                            cnt += 1;
+                            if cnt >= stop { std::ops::ControlFlow::Break(()) } else { Continue(()) }
+                        },
+                        |a| spec.filt.ok(a.node, a.distance));
+                    abandoned = Some(seen);
+                }
                 let mut log: Vec<String> = Vec::new();
+                let mut overrun = false;
                 let _r: ControlFlow<(), ()> = visit.visit_filtered(
                     spec.roots.clone(),
-                    |e| { log.push(ev_pred(e)); Continue(()) },
+                    |e| {
+                        log.push(ev_pred(e));
+                        // a visit that never ends (leftover level separators) must not hang the harness
+                        if log.len() > 4 * (n + vg.num_arcs() as usize) + 64 { overrun = true; std::ops::ControlFlow::Break(()) } else { Continue(()) }
+                    },
                     |a| spec.filt.ok(a.node, a.distance));
-                logs.push(log.join(","));
+                if overrun { log.push("OVERRUN".to_string()); }
+                match abandoned {
+                    Some(a) => logs.push(format!("@{}@{}", fmt_ints(&a), log.join(","))),
+                    None => logs.push(log.join(",")),
+                }
             }
             Ok(logs)
         }
@@ -407,7 +435,13 @@ fn emit_case_on(out: &mut impl Write, id: &str, g: &Graph, kind: Kind, gran: i64
     for (i, s) in visits.iter().enumerate() {
         line.push_str(&format!(" x{i}={} r{i}={} b{i}={} m{i}={} s{i}={}", s.reset as u8, fmt_ints(&s.roots),
                                fmt_ints(&s.filt.blocked), s.filt.maxd, s.filt.salt));
-        if let Some(l) = logs.get(i) { line.push_str(&format!(" e{i}={l}")); }
+        if let Some(l) = logs.get(i) {
+            // "@nodes@events": the nodes reported by an abandoned visit that preceded this one
+            match l.strip_prefix('@').and_then(|r| r.split_once('@')) {
+                Some((a, ev)) => line.push_str(&format!(" a{i}={a} e{i}={ev}")),
+                None => line.push_str(&format!(" e{i}={l}")),
+            }
+        }
     }
     writeln!(out, "{line}").unwrap();
 }
